@@ -12,8 +12,13 @@ pub mod c05;
 pub mod c06;
 pub mod c08;
 pub mod c09;
+pub mod c13;
+pub mod c15;
+pub mod c16;
 pub mod c17;
 pub mod c18;
+pub mod c19;
+pub mod c20;
 pub mod common;
 
 pub fn run(cfg: &Cfg) -> i32 {
@@ -26,8 +31,13 @@ pub fn run(cfg: &Cfg) -> i32 {
         "C06" => c06::run(cfg),
         "C08" => c08::run(cfg),
         "C09" => c09::run(cfg),
+        "C13" => c13::run(cfg),
+        "C15" => c15::run(cfg),
+        "C16" => c16::run(cfg),
         "C17" => c17::run(cfg),
         "C18" => c18::run(cfg),
+        "C19" => c19::run(cfg),
+        "C20" => c20::run(cfg),
         other => {
             eprintln!("INCONCLUSIVE unknown property {}", other);
             2
@@ -45,8 +55,13 @@ pub fn replay_case(prop: &str, ctx: &mut Ctx, case: &Value) -> Result<(), Violat
         "C06" => c06::replay(ctx, case),
         "C08" => c08::replay(ctx, case),
         "C09" => c09::replay(ctx, case),
+        "C13" => c13::replay(ctx, case),
+        "C15" => c15::replay(ctx, case),
+        "C16" => c16::replay(ctx, case),
         "C17" => c17::replay(ctx, case),
         "C18" => c18::replay(ctx, case),
+        "C19" => c19::replay(ctx, case),
+        "C20" => c20::replay(ctx, case),
         _ => Err(ctx.violation("INFRA", format!("unknown property {}", prop), Value::Null)),
     }
 }
